@@ -17,7 +17,7 @@ import tempfile
 
 import numpy as np
 
-POOL = [0.0, 1.0, -1.0, 0.5, 2.75, -3.125, 0.1, 1e-300, 5e-324, 1e300, -1e300, 0.30000000000000004, 123456.78901234567, -0.0009765625]
+POOL = [0.0, 1.0, -1.0, 0.5, 2.75, -3.125, 0.1, 1e-300, 5e-324, 1e300, -1e300, 0.30000000000000004, 123456.78901234567, -0.0009765625, -0.0]   # -0.0 last: its bit pattern differs from 0.0
 STL_POOL = [0.0, 1.0, -1.0, 0.5, 2.75, -3.125, 0.1, 0.30000000000000004, 123456.78901234567, -0.0009765625, 3.0, 7.5]
 FORMATS = ["obj", "mesh", "geogram_ascii", "off", "tet", "xyz"]
 _INT = re.compile(r"^[+-]?\d+$")
